@@ -421,7 +421,9 @@ static void note_step (int t) {
 	}
 	if ((o->kind == OP_CAS && !o->ok) || o->kind == OP_SEMP || o->kind == OP_SEMPD || o->kind == OP_DELAY) rp_mark_nontrivial ();
 }
-static void post (int actor, const char *label) { (void) label; note_step (actor - 1); }
+static int dbg_steps;
+static void post (int actor, const char *label) { (void) label; note_step (actor - 1);
+	if (dbg_steps) { const struct rt_op *o = rt_last (actor - 1); char nb[64], fb[64]; fprintf (stderr, "step t%d %s %s a=%u b=%u r=%u ok=%d fn=%s word=0x%x now=%ld\n", actor, rt_kind_name (o->kind), o->addr ? rt_addr_name (o->addr, nb, sizeof nb) : "-", o->a, o->b, o->res, o->ok, rt_op_fn (o, fb, sizeof fb), S.mu_freed ? 0 : *(volatile uint32_t *) &S.mu->word, (long) (rt_now () - RT_T0)); } }
 static void env (const char *label, const char *exp) { (void) exp; if (!strcmp (label, "Tick")) rt_tick (); }
 
 /* a thread may legitimately stay asleep for ever only inside nsync_mu_wait on a condition that is false (nobody owes it a wake-up) */
@@ -662,11 +664,59 @@ static int run_climb (long runs, unsigned seed, const char *init, const char *vi
 	return viols ? 1 : 0;
 }
 
+/* ---- coarse scripted schedules (variant probes): "<thread><cond>,..." with cond c = run the thread until it is parked at its next client
+   point, b = until it cannot run (asleep), s = until it has just taken the mutex's spinlock by a successful CAS, f = until it has finished.
+   Prints the final word and which threads are asleep. */
+static int run_coarse (const char *init, const char *script, const char *violdir, const char *prop) {
+	const char *p = script;
+	int i;
+	char *sched = NULL; size_t sl = 0; FILE *sf = open_memstream (&sched, &sl);
+	rt_reset ();
+	setup (init);
+	fprintf (sf, "T 1 %s\n", init);
+	while (*p) {
+		int t = *p - '1'; char c = p[1]; long guard = 0;
+		if (t < 0 || t >= S.n || !c) break;
+		for (;;) {
+			const struct rt_op *o;
+			if (rt_state (t) == F_DONE || !rt_enabled (t) || guard++ > 5000 || rt_first_violation ()) break;
+			rt_grant (t); note_step (t); fprintf (sf, "S %d * *\n", t + 1);
+			o = rt_last (t);
+			if (c == 'c' && rt_state (t) == F_PARKED && rt_pending (t)->kind == OP_CLIENT) break;
+			if (c == 's' && o->kind == OP_CAS && o->ok && o->addr == (void *) &S.mu->word && (o->b & MU_SPINLOCK) != 0 && (o->a & MU_SPINLOCK) == 0) break;
+		}
+		p += 2; if (*p == ',') p++;
+	}
+	printf ("COARSE word=0x%x asleep=", *(volatile uint32_t *) &S.mu->word);
+	for (i = 0; i < S.n; i++) if (rt_state (i) != F_DONE && !rt_enabled (i)) printf ("%d", i + 1);
+	printf (" done=");
+	for (i = 0; i < S.n; i++) if (rt_state (i) == F_DONE) printf ("%d", i + 1);
+	printf ("\n");
+	/* then everybody runs to completion: somebody left asleep who is owed a wake-up is a violation like in any other run */
+	if (!rt_first_violation ()) finish (1);
+	fclose (sf);
+	if (rt_first_violation ()) {
+		const struct rt_viol *v = rt_first_violation ();
+		char path[512] = "-";
+		if (violdir) {
+			FILE *o;
+			snprintf (path, sizeof path, "%s/%s_coarse_%d.sched", violdir, prop, (int) getpid ());
+			o = fopen (path, "w");
+			if (o) { fputs (sched, o); fputs ("E\n", o); fclose (o); }
+		}
+		printf ("VIOL %s|%s|thread %d|step %ld|%s|%s\n", v->oracle, v->fn, v->tid, v->step, path, v->msg);
+	}
+	free (sched);
+	printf ("STATS tours=1 steps=0 matched=%d diverged=0 mismatches=0 violations=%d nontrivial=1\n", rt_first_violation () ? 0 : 1, rt_first_violation () ? 1 : 0);
+	return rt_first_violation () ? 1 : 0;
+}
+
 int main (int argc, char **argv) {
 	static struct rp_harness h = { setup, pre, env, obs, finish, post, NULL };
 	struct rp_stats st;
 	const char *prop = getenv ("VERIF_PROP") ? getenv ("VERIF_PROP") : "C01";
 	if (getenv ("VERIF_SB")) sb_limit = atoi (getenv ("VERIF_SB"));
+	dbg_steps = getenv ("VERIF_DEBUG") != NULL;
 	if (argc < 3) { fprintf (stderr, "usage: h_mu replay <schedule> [violdir] | h_mu random <runs> <seed> <init> [violdir] [trace]\n"); return 2; }
 	rt_init ();
 	rt_sem_single_step = 1;
@@ -685,6 +735,7 @@ int main (int argc, char **argv) {
 		printf ("MAXSLEEPS %d\n", maxsleeps);
 		return st.violations ? 1 : 0;
 	}
+	if (!strcmp (argv[1], "coarse") && argc >= 4) return run_coarse (argv[2], argv[3], argc > 4 ? argv[4] : NULL, prop);
 	if (!strcmp (argv[1], "pb") && argc >= 5) {
 		/* every schedule with at most <bound> preemptions after the saved prefix (rp_explore_pb) */
 		FILE *f = fopen (argv[2], "r");
